@@ -14,6 +14,14 @@ pub(crate) mod verif_online {
 
     pub const SIGN_CTX: &[u8] = b"RoughTime v1 response signature\x00";
 
+    /// SystemTime::now is a syscall; key and certificate construction must not depend on the clock,
+    /// the stub hands out an arbitrary instant should the code ask for one
+    pub fn stub_now_any() -> SystemTime {
+        let s = vany_u64();
+        vassume(s < (1u64 << 40));
+        UNIX_EPOCH + Duration::new(s, 0)
+    }
+
     pub fn online_pk(k: &OnlineKey) -> Vec<u8> {
         k.signer.public_key_bytes()
     }
@@ -125,6 +133,7 @@ pub(crate) mod verif_online {
     #[cfg_attr(kani, kani::proof)]
     #[cfg_attr(kani, kani::unwind(8))]
     #[cfg_attr(kani, kani::stub(<crate::error::Error as std::convert::From<std::io::Error>>::from, crate::verif_support::stub_error_from_io))]
+    #[cfg_attr(kani, kani::stub(std::time::SystemTime::now, crate::key::online::verif_online::stub_now_any))]
     #[cfg_attr(not(kani), test)]
     fn c10_make_dele() {
         dalek::model_reset();
